@@ -337,7 +337,9 @@ void adapter_exec(Ev *ev)
             }
         }
         entries[nr].type = REG_TYPE_INVALID;
-        memset(&T, 0, sizeof T);
+        /* every second description is put into the table object as the previous one left it (re-initialisation) */
+        static unsigned tinits;
+        if ((tinits++ & 1) == 0) memset(&T, 0, sizeof T);
         T.area = areas; T.entry = entries;
         register_make_bigendian(&T, be != 0);
         have = 1;
